@@ -2843,6 +2843,10 @@ func (col *DatabaseCollectionWithUser) documentUpdateFunc(
 	// Prune old revision history to limit the number of revisions:
 	if pruned := doc.pruneRevisions(ctx, col.revsLimit(), doc.GetRevTreeID()); pruned > 0 {
 		base.DebugfCtx(ctx, base.KeyCRUD, "updateDoc(%q): Pruned %d old revisions", base.UD(doc.ID), pruned)
+		// Pruning can remove a whole tombstoned branch: the flags computed before it must agree with the remaining leaves
+		_, branched, inConflict := doc.History.winningRevision(ctx)
+		doc.setFlag(channels.Conflict, inConflict)
+		doc.setFlag(channels.Branched, branched)
 	}
 
 	updatedExpiry = doc.updateExpiry(syncExpiry, updatedExpiry, expiry)
